@@ -593,3 +593,85 @@ func readerPrefixScheme(p *Prog, f *ssa.Function) (prefixScheme, string) {
 }
 
 var _ = constant.MakeBool
+
+// ---------- fixed-offset writes (message header, set header, template record) ----------
+
+type putSite struct {
+	In    *ssa.Call
+	Width int
+	Order string
+	Base  string // "T.f" for a field-held buffer, "local" for a fresh local array
+	Low   int64  // -1 when not constant
+	High  int64  // -1 when absent
+	Val   ssa.Value
+}
+
+func putSites(f *ssa.Function) []putSite {
+	var out []putSite
+	eachInstr(f, func(in ssa.Instruction) {
+		c, ok := in.(*ssa.Call)
+		if !ok {
+			return
+		}
+		n := calleeName(&c.Call)
+		var w int
+		var o string
+		for _, oo := range []string{"bigEndian", "littleEndian"} {
+			for _, ww := range []int{16, 32, 64} {
+				if n == fmt.Sprintf("(encoding/binary.%s).PutUint%d", oo, ww) {
+					w, o = ww/8, map[string]string{"bigEndian": "BigEndian", "littleEndian": "LittleEndian"}[oo]
+				}
+			}
+		}
+		if w == 0 {
+			return
+		}
+		ps := putSite{In: c, Width: w, Order: o, Low: -1, High: -1, Val: c.Call.Args[2], Base: "?"}
+		dst := c.Call.Args[1]
+		if sl, ok := dst.(*ssa.Slice); ok {
+			if sl.Low == nil {
+				ps.Low = 0
+			} else if v, ok := constInt(sl.Low); ok {
+				ps.Low = v
+			}
+			if sl.High != nil {
+				if v, ok := constInt(sl.High); ok {
+					ps.High = v
+				}
+			}
+			base := sl.X
+			if inner, ok := base.(*ssa.Slice); ok { // slice of a slice of a local array: addBytes[0:2]
+				base = inner.X
+				if inner.Low != nil {
+					if v, ok := constInt(inner.Low); ok && v != 0 {
+						ps.Low = -1
+					}
+				}
+			}
+			if tn, fn, _, ok := loadedField(base); ok {
+				ps.Base = tn + "." + fn
+			} else if _, ok := base.(*ssa.Alloc); ok {
+				ps.Base = "local"
+			}
+		}
+		out = append(out, ps)
+	})
+	return out
+}
+
+func valueDesc(v ssa.Value) string {
+	v = stripChange(v)
+	if c, ok := v.(*ssa.Const); ok && c.Value != nil {
+		return "const " + c.Value.ExactString()
+	}
+	if pa, ok := v.(*ssa.Parameter); ok {
+		return "param " + pa.Name()
+	}
+	if tn, fn, _, ok := loadedField(v); ok {
+		return "field " + tn + "." + fn
+	}
+	if cv, ok := v.(*ssa.Convert); ok {
+		return "convert(" + valueDesc(cv.X) + ")"
+	}
+	return v.Name()
+}
